@@ -19,6 +19,7 @@ gross form of it that `BatteryManager` alone would let through, see `DistWitness
 -/
 import Frequenz.Lemmas.DistributionTop
 import Frequenz.Lemmas.DistributionWitness
+import Frequenz.Lemmas.DistributionTie8
 
 open Dist Extracted.Dist DistWitness
 
@@ -153,3 +154,57 @@ theorem C01_sign_refuted : ¬ C01_sign_statement := by
   decide +kernel
 
 theorem C01_full_refuted : ¬ C01_statement := fun h => C01_sum_refuted h.1
+
+/-! ### Model is source
+
+`Extracted/DistributionLoops.lean` is the machine translation of the WHOLE bodies of `AggregatedBatteryData.__init__`,
+`_aggregate_battery_power_bounds` and of every method of `BatteryDistributionAlgorithm` on the path of `distribute_power`
+(`_total_capacity`, `_compute_battery_availability_ratio`, `_distribute_power`, `_greedy_distribute_remaining_power`,
+`_distribute_multi_inverter_pairs`, `_inclusion_exclusion_bounds`, `_distribute_consume_power`, `_distribute_supply_power`,
+`distribute_power`), regenerated from the current source text on every run (`tools/extractors/distribution_loops.py`:
+statement by statement; dicts as association lists in insertion order, `for` loops as folds over generated step functions,
+the `while` as a fuel-indexed recursion, `ValueError` as `none`).  The hand-written model `Dist.distribute` — about which
+every theorem above is stated — equals it. -/
+
+/-- an iteration order of `frozenset` for the witness `regular` (ids 13, 14 in that order; singletons as they are) -/
+def C01_fsOrderWitness (l : List Int) : List Int := if 13 ∈ l then [13, 14] else l
+
+/-- **The model is the source** (loop by loop: `Lemmas/DistributionTie*.lean` — `greedy_eq_source`, `split_eq_source`,
+`reserve_eq_source`, `coverLoop_eq_source` for every fuel, `coverFold_eq_source`, `excess_eq_source`, `core_eq_source`,
+`bounds_eq_source`, `ratio_eq_source` incl. both sorts, `side_zero_source`, `consume_/supply_eq_source`,
+`aggregate_eq_source`).  From the raw battery and inverter data: building `AggregatedBatteryData` for every battery set
+and calling `distribute_power` returns what `Dist.distribute` returns — both raise, or the same `remaining_power` and the
+same `distribution` dictionary (`SameDict`; the two lists are EQUAL whenever the sum of the availability ratios is not
+close to zero, `DistTie.distribute_eq_source`) — for every power, exponent and data, and for every fuel of the `while` from
+`number of pairs + 1` on.  Hypotheses: distinct component ids, non-empty inverter sets, and `Group.invs` listed in the
+iteration order `fsOrder` of the `frozenset` of its ids (the one oracle of the translation). -/
+theorem C01_model_is_source (m : Nat) (fsOrder : List Int → List Int) (inp : Input)
+    (hfs : DistTie.FsOrderOK fsOrder inp.groups) (hnd : (DistTie.keysL DistTie.batId inp.groups).Nodup)
+    (hne : ∀ g ∈ inp.groups, g.invs ≠ []) :
+    DistTie.SameDict
+      (Extracted.DistLoops.distributePowerTop inp.exp fsOrder (inp.groups.length + 1 + m) inp.power
+        (inp.groups.map DistTie.compOf))
+      ((distribute inp).map DistTie.resultOf) :=
+  DistTie.model_is_source m fsOrder inp hfs hnd hne
+
+theorem C01_fsOrderWitness_ok : DistTie.FsOrderOK C01_fsOrderWitness regular.groups := by
+  intro g hg l hl
+  simp only [regular, pair, List.mem_cons, List.not_mem_nil, or_false] at hg
+  rcases hg with rfl | rfl | rfl
+  · have : l = [11] := by simpa using hl
+    subst this; decide
+  · have : l = [12] := by simpa using hl
+    subst this; decide
+  · have h13 : (13 : Int) ∈ l := hl.mem_iff.mpr (by simp)
+    simp [C01_fsOrderWitness, h13]
+
+/-- non-vacuity: the hypotheses hold for the witness `regular` (three pairs, one with two inverters), and the translated
+source and the model both evaluate to the same non-trivial result on it -/
+example : DistTie.FsOrderOK C01_fsOrderWitness regular.groups ∧ (DistTie.keysL DistTie.batId regular.groups).Nodup ∧
+    (∀ g ∈ regular.groups, g.invs ≠ []) ∧
+    Extracted.DistLoops.distributePowerTop regular.exp C01_fsOrderWitness (regular.groups.length + 1) regular.power
+        (regular.groups.map DistTie.compOf) =
+      some { distribution := [(11, 280), (13, 300), (14, 120), (12, 0)], remaining_power := 0 } ∧
+    (distribute regular).map DistTie.resultOf =
+      some { distribution := [(11, 280), (13, 300), (14, 120), (12, 0)], remaining_power := 0 } :=
+  ⟨C01_fsOrderWitness_ok, by decide +kernel, by decide +kernel, by decide +kernel, by decide +kernel⟩
